@@ -200,6 +200,15 @@ def resolve_sites(spec, regs, seq, blocked):
             break
         if placed:
             sites.append(placed)
+    # multi-allelic sites: a second substitution at the position of an existing SNP
+    for t in spec.get("twins", []):
+        if not sites:
+            break
+        p1, op, func, kind, nm = sites[t % len(sites)]
+        if kind != "snp" or any(q == p1 and o != op for q, o, *_ in sites):
+            continue
+        alt = [c for c in "ACGT" if c not in (op[0], op[2])][t % 2]
+        sites.append((p1, f"{op[0]}>{alt}", bool((t // 2) % 2), "snp", nm))
     return sites
 
 
@@ -277,8 +286,15 @@ def build(spec):
         idx = sorted({i % nsites for i in ad["sites"]}) if sites else []
         if sv is not None and sv[0] == "del":
             idx = []
-        # an allele only carries variants in regions its structure retains
+        # an allele only carries variants in regions its structure retains, and one variant per position
         idx = [i for i in idx if retained(sv, sites[i][4])]
+        seen_pos = set()
+        uniq_idx = []
+        for i in idx:
+            if sites[i][0] not in seen_pos:
+                seen_pos.add(sites[i][0])
+                uniq_idx.append(i)
+        idx = uniq_idx
         core = tuple(i for i in idx if sites[i][2])
         key = (sv, core)
         if key == (None, ()) and not idx:
@@ -352,7 +368,7 @@ KINDS_READS = ["snp", "snp", "snp", "ins", "del", "mnp"]
 
 @st.composite
 def db_specs(draw, kinds=KINDS_READS, max_sites=10, max_alleles=9, sv=True, pseudo=None, dual_opposite=None, gaps=True,
-             chrs=("7",), stress=False, small=False, name="GA", force_sv=False):
+             chrs=("7",), stress=False, small=False, name="GA", force_sv=False, twins=False):
     n_ex = draw(st.integers(2, 3 if small else 4))
     elen = st.sampled_from([30, 45, 60, 90] if small else [30, 60, 90, 120, 150])
     ilen = st.integers(40, 90) if small else st.integers(40, 220)
@@ -394,6 +410,9 @@ def db_specs(draw, kinds=KINDS_READS, max_sites=10, max_alleles=9, sv=True, pseu
                      st.integers(0, 10 ** 6)).map(list)
     spec["sites"] = draw(st.lists(site, min_size=2, max_size=max_sites))
     ns = len(spec["sites"])
+    if twins:
+        spec["twins"] = draw(st.lists(st.integers(0, 40), min_size=1, max_size=2))
+        ns += len(spec["twins"])
     plain = st.builds(lambda s, lab, dup, as_: {"sites": s, **({"label": lab} if lab else {}), **({"dup": True} if dup else {}),
                                                 **({"as": as_} if as_ is not None else {})},
                       st.lists(st.integers(0, ns - 1), min_size=1, max_size=4), st.sampled_from(["", "", "A", "B"]) if stress else st.just(""),
